@@ -557,6 +557,9 @@ def judge_audit(events):
                 continue            # a0 is the suffix/prefix, the directory shows up in os.mkdir / open
             if ev == 'open' and a0 in ('', None):
                 continue
+            if ev in ('os.listdir', 'os.scandir') and isinstance(a0, str) and (
+                    a0 in sys.path or os.path.realpath(a0) in [os.path.realpath(x or '.') for x in sys.path]):
+                continue            # importlib's FileFinder looking for a module imported lazily
             if not _allowed_open(a0):
                 bad.append([stage, ev, a0, extra if isinstance(extra, (str, int, type(None))) else repr(extra)])
         else:
